@@ -418,6 +418,25 @@ def oracle_identities(chk, case, B, tag, rIdx, cIdx, f0, f):
         chk.fail('C10:linear', 'step(a f + b g) != a step(f) + b step(g)', tag,
                  actual=float(np.abs(h - (a * f + b * g1)).max()))
         ok = False
+    # history-freedom / linearity with zero data: after the steps above (the operator's work arrays are used), the zero
+    # field stays zero, and a field with some identically zero z-lines gives what a sum of two steps gives
+    z0 = np.zeros((nq, nz))
+    fa.step(z0, cIdx, rIdx)
+    if z0.any():
+        chk.fail('C10:zero-field', 'step(0) on a used operator is not 0', tag, expected=0.0, actual=float(np.abs(z0).max()))
+        ok = False
+    keep = np.array([rng.random() < 0.4 for _ in range(nz)])
+    if keep.any() and not keep.all():
+        part = f0 * keep[None, :]
+        rest = f0 - part
+        p1, p2 = part.copy(), rest.copy()
+        fa.step(h.copy(), cIdx, rIdx)              # dirty the work arrays with other data first
+        fa.step(p1, cIdx, rIdx)
+        fa.step(p2, cIdx, rIdx)
+        if not (np.abs((p1 + p2) - f) <= 2.0 ** -36 * np.abs(f0).max() * lsum * amp).all():
+            chk.fail('C10:zero-lines', 'step(f with some z-lines zero) + step(the rest) != step(f)', dict(tag, kept_lines=[int(i) for i in np.nonzero(keep)[0]]),
+                     actual=float(np.abs((p1 + p2) - f).max()))
+            ok = False
     # commutation with cyclic shifts in z
     m = int(rng.randint(1, nz))
     fr_ = np.roll(f0, m, axis=1).copy()
